@@ -75,7 +75,7 @@ Proof.
   - intros x. unfold read_string, check_cell, size. rewrite Edata, Gt. reflexivity.
   - intros x. unfold read_pointer, check_cell, size. rewrite Edata, Gp; [reflexivity|]. unfold cs_cells. rewrite Ec. intros [].
   - intros x. unfold read_labels, check_cell, size. rewrite Edata, Gl. reflexivity.
-  - apply find_agree_of_maps; [exact (wf_label_keys a WF) | exact N3 | exact Gl].
+  - apply find_agree_all; [exact (wf_label_keys a WF) | exact N3 | exact Gl].
 Qed.
 
 (* ------------------------------------------------------------------ the text writer's archives are in C01's domain *)
@@ -174,7 +174,7 @@ Proof.
   - intros x. unfold read_string, check_cell, size. rewrite Hd, Gt. reflexivity.
   - intros x. unfold read_pointer, check_cell, size. rewrite Hd, Gp. reflexivity.
   - intros x. unfold read_labels, check_cell, size. rewrite Hd, Gl. reflexivity.
-  - apply find_agree_of_maps; [exact Hk | exact N3 | exact Gl].
+  - apply find_agree_all; [exact Hk | exact N3 | exact Gl].
 Qed.
 
 (* ------------------------------------------------------------------ the text reader on ANY conforming file *)
